@@ -824,8 +824,46 @@ pub fn iter_step<E: Elem, Tr: ?Sized + TrSet, M: MemB>(v: &mut AnyVec<Tr, M>, r:
     }
 }
 
+/// C12 on the zero-capacity `Empty` back end: every view pointer aligned, shared and mutable
+/// views agree, all extents zero.
+pub fn empty_views_ok<E: Elem + SatisfyTraits<Tr>, Tr: ?Sized + TrSet>() -> bool {
+    use any_vec::mem::Empty;
+    let a = std::mem::align_of::<E>();
+    let mut v: AnyVec<Tr, Empty> = lib(|| AnyVec::new_in::<E>(Empty));
+    let shared = {
+        let b = lib(|| v.as_bytes());
+        (b.as_ptr() as usize, b.len())
+    };
+    let mutable = {
+        let b = lib(|| v.as_bytes_mut());
+        (b.as_ptr() as usize, b.len())
+    };
+    let spare = {
+        let b = lib(|| v.spare_bytes_mut());
+        (b.as_ptr() as usize, b.len())
+    };
+    let tp = typed_ptr::<E, Tr, Empty>(&v) as usize;
+    let (tm, tcap) = match lib(|| v.downcast_mut::<E>()) {
+        Some(mut t) => (lib(|| t.as_mut_ptr()) as usize, lib(|| t.spare_capacity_mut()).len()),
+        None => (1usize.wrapping_neg(), 1),
+    };
+    lib(|| drop(v));
+    shared.0 % a == 0
+        && mutable.0 % a == 0
+        && spare.0 % a == 0
+        && tp % a == 0
+        && tm % a == 0
+        && shared.0 == mutable.0
+        && shared.0 == tp
+        && tp == tm
+        && shared.1 == 0
+        && mutable.1 == 0
+        && spare.1 == 0
+        && tcap == 0
+}
+
 /// Byte / slice view checks, then write k values into the spare capacity.
-pub fn views_step<E: Elem, Tr: ?Sized + TrSet, M: MemB>(v: &mut AnyVec<Tr, M>, r: &RStep, cx: &mut Cx<E>) {
+pub fn views_step<E: Elem + SatisfyTraits<Tr>, Tr: ?Sized + TrSet, M: MemB>(v: &mut AnyVec<Tr, M>, r: &RStep, cx: &mut Cx<E>) {
     let size = size_of::<E>();
     let align = std::mem::align_of::<E>();
     let len = lib(|| v.len());
@@ -861,6 +899,7 @@ pub fn views_step<E: Elem, Tr: ?Sized + TrSet, M: MemB>(v: &mut AnyVec<Tr, M>, r
         let sl = lib(|| tv.as_mut_slice());
         ok &= why(sl.len() == len && sl.as_ptr() as usize == base, "as_mut_slice", cx.diag);
     }
+    ok &= why(empty_views_ok::<E, Tr>(), "views of an Empty-backed vector (alignment / extents / shared vs mutable)", cx.diag);
     cx.ev.push(Ev::Bool(ok));
     let k = r.n;
     if k == 0 {
